@@ -28,6 +28,7 @@ type Env struct {
 	eventsUnknown bool
 	errs    *[]string
 	atPos   int // for local-name disambiguation (token.Pos of the loop)
+	loopKey string // the loop whose invariant is being evaluated (for atEntry)
 	depth   int
 	outer   map[string]Val // entry values of the enclosing function's parameters (closure contracts)
 	tfn     *ssa.Function  // the function the clause belongs to (type parameters resolve to its type arguments)
@@ -1232,6 +1233,17 @@ func (e *Env) evalCall(n SCall) Val {
 			}
 			gh := x.heapGet(e.st, "GH_hashed", "(Array Int String)")
 			return Val{T: Select(gh, Term{fmt.Sprintf("(ival %s)", h.T.S), "Int"}), Typ: types.Typ[types.String]}
+		case "atEntry":
+			// atEntry(E), in a loop invariant: the value E had when the loop was entered
+			snap := e.st.loopEntries[e.loopKey]
+			if snap == nil {
+				return e.fail("atEntry() outside a loop invariant")
+			}
+			saved := e.st
+			e.st = snap
+			v := e.eval(n.Args[0])
+			e.st = saved
+			return v
 		case "untouched":
 			// untouched(p): nothing in this function (or the callees executed in place) appends onto a
 			// shortened view of the slice parameter p, which - capacity allowing - would overwrite
